@@ -534,6 +534,10 @@ class FuzzyTermPlugin(TaggingPlugin):
             # Set FuzzyTerm-specific attributes
             q.maxdist = self.maxdist
             q.prefixlength = self.prefixlength
+            if isinstance(q, query.FuzzyTerm):
+                # A required prefix cannot be longer than the word itself
+                # (the automaton builder indexes the word by prefix position)
+                q.prefixlength = min(self.prefixlength, len(q.text))
             return q
 
     def create(self, parser, match):
